@@ -212,6 +212,62 @@ func genC11(g *gen) {
 	g.line("Definition gen_handle_order_lookup_mark_loopcheck_store_flood : bool := %s.", coqBool(ordered))
 	// check-then-act atomicity: the lookup of the key and its insertion lie in ONE write-lock region of f.mu
 	g.line("Definition gen_seen_check_and_mark_in_one_lock_region : bool := %s.", coqBool(floodSeenOneLockRegion(h)))
+	// ROUTE_WITHDRAW shares the seen cache: same key expression (origin of the withdrawal, never the relaying peer),
+	// same one-lock-region test-and-set, flooded with the local id appended to seen-by, and no handler ever deletes
+	// from the seen cache (only the TTL cleanup and the explicit clear do)
+	hw := findFunc(f, "Flooder", "HandleRouteWithdraw")
+	g.line("Definition gen_withdraw_seen_key_origin_arg : string := %s.", coqString(compositeField(hw, "AdvertisementKey", "OriginAgent")))
+	g.line("Definition gen_withdraw_seen_key_sequence_arg : string := %s.", coqString(compositeField(hw, "AdvertisementKey", "Sequence")))
+	g.line("Definition gen_withdraw_check_and_mark_in_one_lock_region : bool := %s.", coqBool(floodSeenOneLockRegion(hw)))
+	wAppend := hasNode(hw, func(n ast.Node) bool { return isStmtText(n, "newSeenBy := append(seenBy, f.localID)") })
+	wargs := callArgs(hw, "f.floodWithdrawal")
+	wFlood := len(wargs) == 5 && wargs[0] == "fromPeer" && wargs[1] == "originAgent" && wargs[2] == "sequence" && wargs[3] == "routes" && wargs[4] == "newSeenBy"
+	fw := findFunc(f, "Flooder", "floodWithdrawal")
+	fwArgs := callArgs(fw, "f.floodFrame")
+	wFrame := len(fwArgs) >= 2 && fwArgs[0] == "fromPeer" && fwArgs[1] == "seenBy" &&
+		compositeField(fw, "&protocol.RouteWithdraw", "OriginAgent") == "originAgent" && compositeField(fw, "&protocol.RouteWithdraw", "Sequence") == "sequence" &&
+		compositeField(fw, "&protocol.RouteWithdraw", "SeenBy") == "seenBy"
+	pWMark := posOf(hw, func(n ast.Node) bool {
+		a, ok := n.(*ast.AssignStmt)
+		return ok && len(a.Lhs) == 1 && norm(src(a.Lhs[0])) == "f.seenCache[key]"
+	})
+	pWLoop := posOf(hw, func(n ast.Node) bool { return isExprText(n, "containsAgent(seenBy, f.localID)") })
+	pWProc := posOf(hw, func(n ast.Node) bool {
+		c, ok := n.(*ast.CallExpr)
+		return ok && norm(src(c.Fun)) == "f.routeMgr.ProcessRouteWithdraw"
+	})
+	pWFlood := posOf(hw, func(n ast.Node) bool {
+		c, ok := n.(*ast.CallExpr)
+		return ok && norm(src(c.Fun)) == "f.floodWithdrawal"
+	})
+	g.line("Definition gen_withdraw_mark_loopcheck_process_flood_with_self_appended : bool := %s.",
+		coqBool(wAppend && wFlood && wFrame && pWMark > 0 && pWMark < pWLoop && pWLoop < pWProc && pWProc < pWFlood))
+	delOK := true
+	for _, d := range f.Decls {
+		fd, ok := d.(*ast.FuncDecl)
+		if !ok || fd.Body == nil {
+			continue
+		}
+		dels := hasNode(fd, func(n ast.Node) bool {
+			c, ok := n.(*ast.CallExpr)
+			return ok && norm(src(c.Fun)) == "delete" && len(c.Args) == 2 && norm(src(c.Args[0])) == "f.seenCache"
+		})
+		reassign := hasNode(fd, func(n ast.Node) bool {
+			a, ok := n.(*ast.AssignStmt)
+			return ok && len(a.Lhs) == 1 && norm(src(a.Lhs[0])) == "f.seenCache"
+		})
+		if (dels || reassign) && fd.Name.Name != "cleanupSeenCache" && fd.Name.Name != "ClearSeenCache" && fd.Name.Name != "NewFlooder" {
+			delOK = false
+			g.note("function %s removes entries from the route seen cache", fd.Name.Name)
+		}
+	}
+	g.line("Definition gen_only_cleanup_removes_seen_entries : bool := %s.", coqBool(delOK))
+	// the origin side of a withdrawal: fresh sequence of its own, own id as origin, seen-by = [self]
+	wl := findFunc(f, "Flooder", "WithdrawLocalRoutes")
+	wlOK := hasNode(wl, func(n ast.Node) bool { return isStmtText(n, "seq := f.routeMgr.IncrementSequence()") }) &&
+		compositeField(wl, "&protocol.RouteWithdraw", "OriginAgent") == "f.localID" && compositeField(wl, "&protocol.RouteWithdraw", "Sequence") == "seq" &&
+		compositeField(wl, "&protocol.RouteWithdraw", "SeenBy") == "[]identity.AgentID{f.localID}"
+	g.line("Definition gen_withdraw_origin_fresh_sequence_own_id : bool := %s.", coqBool(wlOK))
 	// the seen-by list handed to the flood is the received one plus the local id
 	appendSelf := hasNode(h, func(n ast.Node) bool { return isStmtText(n, "newSeenBy := append(seenBy, f.localID)") })
 	fargs := callArgs(h, "f.floodAdvertisementEncrypted")
@@ -731,7 +787,23 @@ func genC15(g *gen) {
 	g.line("Definition gen_replay_path_has_self_prepended : bool := %s.", coqBool(pathWithSelf))
 	// plumbing: agent -> FloodConfig
 	ic := findFunc(fa, "Agent", "initComponents")
-	plumbed := hasNode(ic, func(n ast.Node) bool { return isStmtText(n, "floodCfg.MaxHops = a.cfg.Routing.MaxHops") })
+	// the assignment must be an unconditional (top-level) statement of initComponents
+	plumbed := false
+	if ic != nil && ic.Body != nil {
+		for _, st := range ic.Body.List {
+			if isStmtText(st, "floodCfg.MaxHops = a.cfg.Routing.MaxHops") {
+				plumbed = true
+			}
+		}
+	}
+	// NewFlooder takes the configured value as it is (no rewriting of cfg.MaxHops)
+	nfl := findFunc(ff, "", "NewFlooder")
+	if hasNode(nfl, func(n ast.Node) bool {
+		a, ok := n.(*ast.AssignStmt)
+		return ok && len(a.Lhs) == 1 && norm(src(a.Lhs[0])) == "cfg.MaxHops"
+	}) {
+		plumbed = false
+	}
 	pAssign := posOf(ic, func(n ast.Node) bool { return isStmtText(n, "floodCfg.MaxHops = a.cfg.Routing.MaxHops") })
 	pNew := posOf(ic, func(n ast.Node) bool {
 		c, ok := n.(*ast.CallExpr)
